@@ -325,6 +325,40 @@ func (w *World) AddSyncedNode(name string, src *Node) (*Node, error) {
 	return n, nil
 }
 
+// AddLoadedNode creates a node and feeds the given vertices to the real LoadDag through a channel.
+// The node is registered in the world only when register is true. Returns the node, whether it reports loaded, and the cancel cause.
+func (w *World) AddLoadedNode(name string, stream []*accountant.Vertex, register bool) (*Node, bool, error) {
+	a := NewActor(name)
+	w.Keys[a.Addr] = a.W.Public
+	b, cancel, err := w.newBook(a)
+	if err != nil {
+		return nil, false, err
+	}
+	n := &Node{Idx: len(w.Nodes), Name: name, Actor: a, Book: b, cancel: cancel, Eval: map[H]*ConfEval{}, Seen: map[H]bool{}, Synced: true, Tainted: map[string]bool{}, Orphans: map[H]bool{}}
+	if register {
+		w.Nodes = append(w.Nodes, n)
+	}
+	ch := make(chan *accountant.Vertex, len(stream)+1)
+	for _, v := range stream {
+		ch <- CloneVertex(v)
+	}
+	close(ch)
+	ctx, cancelCause := context.WithCancelCause(context.Background())
+	b.LoadDag(cancelCause, ch)
+	cause := context.Cause(ctx)
+	cancelCause(nil)
+	return n, b.DagLoaded(), cause
+}
+
+// CloseNode releases one node.
+func (w *World) CloseNode(n *Node) {
+	if !n.Closed {
+		n.Closed = true
+		n.cancel()
+		n.Book.VerifClose()
+	}
+}
+
 func (w *World) Close() {
 	for _, n := range w.Nodes {
 		if !n.Closed {
